@@ -54,7 +54,8 @@ def _pki(proto, n_inter, role):
 _SIZES = st.one_of(st.sampled_from([1, 2, 15, 16, 17, 16383, 16384, 16385, 32768, 50000]), st.integers(1, 50000), st.integers(1, 300))
 _BUFS = st.lists(st.one_of(st.sampled_from([1, 16, 16384, 20000]), st.integers(1, 20000)), min_size=1, max_size=3)
 
-phase = st.fixed_dictionaries({"dir": st.sampled_from(["c2s", "s2c", "both"]), "n": _SIZES, "n2": _SIZES, "bufs": _BUFS})
+phase = st.fixed_dictionaries({"dir": st.sampled_from(["c2s", "s2c", "both", "both", "echo-c", "echo-s"]), "n": _SIZES, "n2": _SIZES, "bufs": _BUFS,
+                               "cut": st.integers(1, 4000)})
 
 case_s = st.fixed_dictionaries({
     "proto": st.sampled_from(net.PROTOS), "mutual": st.booleans(), "depth": st.integers(1, 3), "cdepth": st.integers(1, 2),
@@ -124,6 +125,53 @@ def session(case, ctx):
         eps = {"c": s.client, "s": s.server}
         wrote = 0
         for pi, ph in enumerate(case["phases"]):
+            if ph["dir"].startswith("echo"):
+                # a writes; b reads only the first `cut` bytes, answers while the rest of that record is still unread, then reads the
+                # rest (an echo loop with a read buffer smaller than the peer's writes).  TLCP / TLS 1.2 refuse the write with -1
+                # ("recv all buffered data before send"): a clean refusal is accepted for every protocol, silent corruption is not.
+                a, b = ("c", "s") if ph["dir"] == "echo-c" else ("s", "c")
+                n = min(ph["n"], 16384)
+                cut = min(ph.get("cut", 1000), n)
+                data = _data(n, "%d/%d/echo" % (case["seed"], pi))
+                reply = _data(min(ph["n2"], 16384), "%d/%d/reply" % (case["seed"], pi))
+                r = eps[a].do("send", data)
+                if r[0] == "timeout":
+                    ctx.note("inconclusive-timeout"); return
+                ctx.check(r[1] == 1 and r[2] == n, "%s: write of %d bytes: ret=%s accepted %s" % (proto, n, r[1], r[2]), "write/%s/le16384" % proto)
+                wrote += n
+                r = eps[b].do("recv", cut)
+                if r[0] == "timeout":
+                    ctx.note("inconclusive-timeout"); return
+                ctx.check(r[1] == 1 and 1 <= len(r[2]) <= cut and r[2] == data[:len(r[2])], "%s: first partial read (buffer %d) of a %d byte write: ret=%s, %d bytes%s" %
+                          (proto, cut, n, r[1], len(r[2]), "" if r[2] == data[:len(r[2])] else " differing from what was written"), "echo/%s/first-read" % proto)
+                got = r[2]
+                pending = len(got) < n
+                r = eps[b].do("send", reply)
+                if r[0] == "timeout":
+                    ctx.note("inconclusive-timeout"); return
+                refused = r[1] != 1
+                if refused:
+                    ctx.check(pending and r[2] == 0, "%s: write of %d bytes refused (ret=%s, accepted %s) although no received data was pending" %
+                              (proto, len(reply), r[1], r[2]), "echo/%s/write-refused" % proto)
+                    classes.append("echo:refused")
+                else:
+                    ctx.check(r[2] == len(reply), "%s: reply write accepted %s of %d bytes" % (proto, r[2], len(reply)), "echo/%s/reply-write" % proto)
+                    r2 = eps[a].do("recv_n", len(reply), ph["bufs"])
+                    if r2[0] == "timeout":
+                        ctx.note("inconclusive-timeout"); return
+                    ctx.check(r2[1] is None and r2[2] == reply, "%s: reply written while %d received bytes were still unread arrives damaged (bad=%s)" %
+                              (proto, n - len(got), r2[1]), "echo/%s/reply" % proto)
+                    classes.append("echo:pending" if pending else "echo:drained")
+                if pending:
+                    r3 = eps[b].do("recv_n", n - len(got), ph["bufs"])
+                    if r3[0] == "timeout":
+                        ctx.note("inconclusive-timeout"); return
+                    rest = r3[2]
+                    ctx.check(r3[1] is None and got + rest == data,
+                              "%s: the unread rest of a record changed after a write on the same connection: %d bytes written, first %d read, then %d bytes sent, rest %s (first difference at %s)" %
+                              (proto, n, len(got), len(reply), "ret=%s" % (r3[1],) if r3[1] is not None else "%d bytes" % len(rest),
+                               next((i for i in range(min(len(got + rest), n)) if (got + rest)[i] != data[i]), None)), "echo/%s/rest" % proto)
+                continue
             plan = []
             if ph["dir"] in ("c2s", "both"):
                 plan.append(("c", "s", ph["n"]))
